@@ -160,8 +160,14 @@ pub fn observe<T: Kind>(p: &GenericPurl<T>) -> Value {
     let get_ok = p.qualifiers().iter().all(|(k, v)| p.qualifiers().get(k.as_str()) == Some(v));
     let rt = match T::parse(&disp) {
         None => Value::Null,
-        Some(Ok(q)) => json!({"ok": true, "eq": q == *p, "same": q.to_string() == disp,
-            "hash_eq": hash_of(&q) == hash_of(p), "cmp_eq": q.cmp(p) == std::cmp::Ordering::Equal}),
+        Some(Ok(q)) => {
+            // what the string form reads back as (C09: no character lost, merged into another field or reinterpreted)
+            let back_quals: Vec<Value> = q.qualifiers().iter().map(|(k, v)| json!([hx(k.as_str()), hx(v)])).collect();
+            json!({"ok": true, "eq": q == *p, "same": q.to_string() == disp,
+                   "hash_eq": hash_of(&q) == hash_of(p), "cmp_eq": q.cmp(p) == std::cmp::Ordering::Equal,
+                   "back": {"type": hx(&q.package_type().package_type()), "ns": q.namespace().map(hx), "name": hx(q.name()),
+                            "ver": q.version().map(hx), "quals": back_quals, "sub": q.subpath().map(hx)}})
+        },
         Some(Err(e)) => json!({"ok": false, "err": T::err_name(&e)}),
     };
     let rb = match p.clone().into_builder().build() {
